@@ -42,6 +42,10 @@ SCRATCH = os.path.join(usimlib.BUILD, "scratch")
 SPIN_STEPS = 30000
 
 
+COMPONENTS_REAL_EXTRA = ['ChartToPromela::transform (in-process) and the model it emits, executed by spin 6.5 in random-simulation mode']
+COMPONENTS_SIM_EXTRA = ["delayed-event delivery of the interpreter: HoldDelayQueue (DelayedEventQueueImpl that holds events and releases them in the model's order)"]
+
+
 class Context(object):
     def __init__(self, prop, tier, opts):
         self.opts = opts
